@@ -236,9 +236,10 @@ macro_rules! c15_for {
             pub fn best() {
                 let s = any_stats();
                 let (code, cost) = s.best_code();
-                let j: usize = kani::any();
-                if j < NF {
+                let mut j = 0;
+                while j < NF {
                     kani::assert(cost <= field(&s, j), "OBS c15.best_code: the reported cost is the minimum over the tracked codes");
+                    j += 1;
                 }
                 // the reported code is a tracked code whose total is the reported cost
                 match index_of(code) {
